@@ -407,3 +407,118 @@ pub proof fn lemma_adv_k_target(inp: Seq<char>, m: int, n: int, start: int, end:
         }
     }
 }
+
+// ---------------------------------------------------------------- line / column (C09)
+/// g is the index of the greatest recorded line start that is <= off
+pub open spec fn is_greatest(lo: Seq<usize>, off: int, g: int) -> bool {
+    0 <= g < lo.len() && lo[g] <= off && (g + 1 < lo.len() ==> off < lo[g + 1])
+}
+
+pub proof fn lemma_line_start_props(inp: Seq<char>, k: int)
+    requires 0 <= k <= inp.len()
+    ensures
+        0 <= line_start_of(inp, k) <= k,
+        starts_line(inp, line_start_of(inp, k)),
+        forall|t: int| line_start_of(inp, k) <= t < k ==> inp[t] != '\n',
+        nl_count(inp, k) == nl_count(inp, line_start_of(inp, k)),
+    decreases k
+{
+    if k > 0 && inp[k - 1] != '\n' {
+        lemma_line_start_props(inp, k - 1);
+    }
+}
+
+/// a recorded line start at char index j sits at index nl_count(j) of the sorted list when all earlier line starts are recorded
+pub proof fn lemma_lo_index_count(inp: Seq<char>, lo: Seq<usize>, p: int, j: int)
+    requires
+        lo_wf(inp, lo), 0 <= p < lo.len(), starts_line(inp, j), lo[p] == boff(inp, j),
+        complete_upto(inp, lo, j),
+    ensures p == nl_count(inp, j)
+    decreases p
+{
+    if p == 0 {
+        lemma_boff_ends(inp);
+        lemma_boff_inj(inp, j, 0);
+    } else {
+        // the previous recorded line start
+        let jp = choose|jp: int| #[trigger] starts_line(inp, jp) && boff(inp, jp) == lo[p - 1] as nat;
+        assert(lo[p - 1] < lo[p]);
+        if jp >= j { lemma_boff_mono(inp, j, jp); }
+        assert(jp < j);
+        assert(complete_upto(inp, lo, jp));
+        lemma_lo_index_count(inp, lo, p - 1, jp);
+        // no line start strictly between jp and j
+        assert forall|t: int| jp <= t < j - 1 implies inp[t] != '\n' by {
+            if inp[t] == '\n' {
+                assert(starts_line(inp, t + 1));
+                let x = boff(inp, t + 1) as usize;
+                lemma_boff_mono(inp, jp, t + 1);
+                lemma_boff_mono(inp, t + 1, j);
+                lemma_boff_mono(inp, j, inp.len() as int);
+                assert(lo.contains(x));
+                let idx = choose|idx: int| 0 <= idx < lo.len() && lo[idx] == x;
+                if idx <= p - 1 { if idx < p - 1 { assert(lo[idx] < lo[p - 1]); } }
+                else if idx >= p { if idx > p { assert(lo[p] < lo[idx]); } }
+            }
+        }
+        lemma_nl_count_flat(inp, jp, j - 1);
+        assert(inp[j - 1] == '\n');
+    }
+}
+
+pub proof fn lemma_nl_count_flat(inp: Seq<char>, a: int, b: int)
+    requires 0 <= a <= b <= inp.len(), forall|t: int| a <= t < b ==> inp[t] != '\n'
+    ensures nl_count(inp, b) == nl_count(inp, a)
+    decreases b - a
+{
+    if a < b { lemma_nl_count_flat(inp, a, b - 1); }
+}
+
+/// with every line start up to and including char k recorded, the greatest recorded line start <= boff(k) is the start of
+/// k's line and its index is the number of line breaks before k
+pub proof fn lemma_position_exact(inp: Seq<char>, lo: Seq<usize>, k: int, g: int)
+    requires lo_wf(inp, lo), 0 <= k <= inp.len(), complete_upto(inp, lo, k + 1), is_greatest(lo, boff(inp, k) as int, g), blen(inp) <= usize::MAX
+    ensures lo[g] == boff(inp, line_start_of(inp, k)), g == nl_count(inp, k)
+{
+    lemma_line_start_props(inp, k);
+    let js = line_start_of(inp, k);
+    lemma_boff_mono(inp, js, k);
+    lemma_boff_mono(inp, k, inp.len() as int);
+    let x = boff(inp, js) as usize;
+    assert(lo.contains(x));
+    let p = choose|p: int| 0 <= p < lo.len() && lo[p] == x;
+    // p is the greatest index with lo[p] <= boff(k)
+    if p + 1 < lo.len() {
+        let jn = choose|jn: int| #[trigger] starts_line(inp, jn) && boff(inp, jn) == lo[p + 1] as nat;
+        assert(lo[p] < lo[p + 1]);
+        if jn <= js { lemma_boff_mono(inp, jn, js); }
+        if jn <= k { assert(inp[jn - 1] == '\n'); assert(false); }
+        lemma_boff_mono(inp, k, jn);
+    }
+    if g < p { assert(lo[g + 1] <= lo[p]) by { if g + 1 < p { assert(lo[g + 1] < lo[p]); } } }
+    if g > p { assert(lo[p + 1] <= lo[g]) by { if p + 1 < g { assert(lo[p + 1] < lo[g]); } } }
+    assert(g == p);
+    assert(complete_upto(inp, lo, js));
+    lemma_lo_index_count(inp, lo, p, js);
+}
+
+/// the permitted alternative for an offset right after a line break whose line start is not recorded yet
+pub proof fn lemma_position_alt(inp: Seq<char>, lo: Seq<usize>, k: int, g: int)
+    requires
+        lo_wf(inp, lo), 0 < k <= inp.len(), complete_upto(inp, lo, k), starts_line(inp, k), !lo.contains(boff(inp, k) as usize),
+        is_greatest(lo, boff(inp, k) as int, g), blen(inp) <= usize::MAX
+    ensures lo[g] == boff(inp, line_start_of(inp, k - 1)), g + 1 == nl_count(inp, k)
+{
+    lemma_boff_mono(inp, k - 1, k);
+    lemma_boff_mono(inp, k, inp.len() as int);
+    // g is also the greatest index for boff(k - 1): no recorded start lies in (boff(k-1), boff(k)]
+    assert(lo.contains(lo[g]));
+    assert(lo[g] != boff(inp, k));
+    let jg = choose|jg: int| #[trigger] starts_line(inp, jg) && boff(inp, jg) == lo[g] as nat;
+    if jg >= k { lemma_boff_mono(inp, k, jg); }
+    lemma_boff_mono(inp, jg, k - 1);
+    assert(is_greatest(lo, boff(inp, k - 1) as int, g)) by {
+        if g + 1 < lo.len() { }
+    }
+    lemma_position_exact(inp, lo, k - 1, g);
+}
